@@ -109,6 +109,192 @@ def _flanking_labels(ck, construct, w, rec, ix):
              found=f"breakage pair {T.show(B)[-80:]}, next {T.show(N)[-100:]}", required="alignedPairs[<index of the breakage pair> + 1]")
 
 
+def _breakage_pair_is_joined_pair(ck):
+    """C20.9: what the molecule finder's breakage search records per molecule is (index, pair) with pair == joined.alignedPairs[index]:
+    C20.5 takes the pair as the first flanking label and joined.alignedPairs[index + 1] as the second, so only then are the two
+    labels neighbours in the joined record. Decided per store `table[id] = [INDEX, PAIR]`:
+      * inside a branch whose test is `joined.alignedPairs[INDEX] != PAIR`            -> the pair is positively NOT that pair
+      * PAIR is <part or joined>.alignedPairs[INDEX] with INDEX = <loop index> - 1 inside that branch -> the last agreeing pair
+      * after the loop, under the 'nothing differed' flag, with the loop's own (index, pair)  -> the last pair of the part, which agreed
+    """
+    from ..norm import norm_in
+    ck.clause("C20.9", "the breakage pair the molecule finder records is a pair of the joined record, stored with its own index there: "
+                       "the first flanking label is joined.alignedPairs[i], the second joined.alignedPairs[i + 1] (neighbours in the record)")
+    p = ck.ctx.p
+    fn = p.find_function("sv.molecule_indels", "find_conflict_place")
+    if fn is None:
+        raise AnalysisError("sv.molecule_indels.find_conflict_place not found")
+    loops = [n for n in ast.walk(fn.node) if isinstance(n, ast.For) and isinstance(n.iter, ast.Call)
+             and ast.unparse(n.iter.func) == "enumerate" and isinstance(n.target, ast.Tuple) and len(n.target.elts) == 2
+             and all(isinstance(e, ast.Name) for e in n.target.elts)]
+    if len(loops) != 1:
+        raise AnalysisError(f"{fn.where}: the loop over the pairs of the part that starts the joined record was not found")
+    lp = loops[0]
+    iname, pname = lp.target.elts[0].id, lp.target.elts[1].id
+    part_pairs = norm_in(ck.ctx, fn, lp.iter.args[0])                     # <part>.alignedPairs
+    if not (part_pairs[0] == "attr" and part_pairs[2] == "alignedPairs"):
+        raise AnalysisError(f"{where(fn, lp)}: the loop does not run over a part's aligned pairs: {T.show(part_pairs)[:100]}")
+    # the joined record: the `for <alignment> in ...` loop that encloses lp
+    outer = [n for n in ast.walk(fn.node) if isinstance(n, ast.For) and n is not lp and any(x is lp for x in ast.walk(n))
+             and isinstance(n.target, ast.Name)]
+    if not outer:
+        raise AnalysisError(f"{fn.where}: the loop over the joined records was not found")
+    joined = V(outer[-1].target.id)
+    JP = T.mk_attr(joined, "alignedPairs")
+    parents = {}
+    for n in ast.walk(fn.node):
+        for c in ast.iter_child_nodes(n):
+            parents[c] = n
+
+    def enclosing_tests(node, stop):
+        out = []
+        cur = node
+        while cur in parents and parents[cur] is not stop:
+            par = parents[cur]
+            if isinstance(par, ast.If):
+                out.append((par, cur in par.body or any(cur is x for b in par.body for x in ast.walk(b))))
+            cur = par
+        return out, (parents.get(cur) is stop)
+
+    stores = [n for n in ast.walk(fn.node) if isinstance(n, ast.Assign) and len(n.targets) == 1 and isinstance(n.targets[0], ast.Subscript)
+              and isinstance(n.value, (ast.List, ast.Tuple)) and len(n.value.elts) == 2]
+    ck.floor("C20.9 breakage stores in find_conflict_place", len(stores), 1)
+    mismatch = T.mk_ne(T.mk_idx(JP, V(iname)), V(pname)) if hasattr(T, "mk_ne") else None
+    for st in stores:
+        w = where(fn, st)
+        idx_t = norm_in(ck.ctx, fn, st.value.elts[0])
+        pair_t = norm_in(ck.ctx, fn, st.value.elts[1])
+        inside = any(x is st for b_ in lp.body for x in ast.walk(b_))
+        construct = "molecule_indels.find_conflict_place:breakage:" + ("differs" if inside else "all-agree")
+        text = "the recorded pair is the joined record's pair at the recorded index"
+        if inside:
+            tests, _ = enclosing_tests(st, lp)
+            differs = False
+            for iff, in_body in tests:
+                for cmp_ in [x for x in ast.walk(iff.test) if isinstance(x, ast.Compare) and len(x.ops) == 1]:
+                    l, r = norm_in(ck.ctx, fn, cmp_.left), norm_in(ck.ctx, fn, cmp_.comparators[0])
+                    if {l, r} == {T.mk_idx(JP, V(iname)), V(pname)}:
+                        if isinstance(cmp_.ops[0], ast.NotEq) and in_body:
+                            differs = True
+                        elif isinstance(cmp_.ops[0], ast.Eq) and not in_body:
+                            differs = True
+            if not differs:
+                raise AnalysisError(f"{w}: the test under which a breakage is recorded inside the loop is not recognised")
+            # under `joined.alignedPairs[i] != pair`
+            if idx_t == V(iname) and pair_t == V(pname):
+                ck.violation("C20.9", construct, w, text + ": under the test that the part's pair differs from the joined record's pair at "
+                             "this index, the pair recorded is the part's pair - a pair that was trimmed away when the parts were joined; "
+                             "the call is measured from a label that is not aligned in the joined record to alignedPairs[index + 1], "
+                             "skipping the record's pair at the index (wrong Length and type; RefStart can exceed RefStop)",
+                             found=f"[{T.show(idx_t)}, {T.show(pair_t)}] where {T.show(JP)}[{iname}] != {pname}",
+                             required=f"[{iname} - 1, {T.show(JP)}[{iname} - 1]] (the last pair the part shares with the joined record)")
+                continue
+            prev = T.p_sub(V(iname), C(1))
+            if idx_t == prev and pair_t in (T.mk_idx(JP, prev), T.mk_idx(part_pairs, prev)):
+                ck.ok("C20.9", construct, w, "the last pair before the first difference is recorded with its own index")
+                continue
+            if pair_t == T.mk_idx(JP, idx_t):
+                raise AnalysisError(f"{w}: a pair of the joined record is recorded, but which one is not understood: {T.show(idx_t)[:80]}")
+            raise AnalysisError(f"{w}: what is recorded at the first difference is not recognised: [{T.show(idx_t)[:60]}, {T.show(pair_t)[:80]}]")
+        else:
+            after = True                 # the loop's else branch, or a statement behind the loop
+            if after and idx_t == V(iname) and pair_t == V(pname):
+                # the loop's own (index, pair) after the loop: the part's last pair when nothing differed - but a `break` taken at
+                # the first difference reaches this statement too, unless the statement is the loop's else branch or sits under a flag
+                in_else = any(x is st for b in lp.orelse for x in ast.walk(b))
+                flagged = False
+                cur = st
+                while cur in parents and parents[cur] is not fn.node:
+                    if isinstance(parents[cur], ast.If):
+                        flagged = True
+                    cur = parents[cur]
+                breaks = [b for b in ast.walk(lp) if isinstance(b, ast.Break)]
+                if in_else or (flagged and not breaks) or flagged:
+                    ck.ok("C20.9", construct, w, "when no pair differs the part's last pair (equal to the joined record's pair at that index) is recorded")
+                    continue
+                verdicts = []
+                for b in breaks:
+                    blk = parents[b]
+                    body = blk.body if b in getattr(blk, "body", []) else getattr(blk, "orelse", [])
+                    re = None
+                    for x in body[:body.index(b)]:
+                        if isinstance(x, ast.Assign) and len(x.targets) == 1 and isinstance(x.targets[0], ast.Tuple) \
+                                and [getattr(e, "id", None) for e in x.targets[0].elts] == [iname, pname] and isinstance(x.value, ast.Tuple):
+                            re = (norm_in(ck.ctx, fn, x.value.elts[0]), norm_in(ck.ctx, fn, x.value.elts[1]))
+                    prev = T.p_sub(V(iname), C(1))
+                    if re is None:
+                        verdicts.append(("bad", b))
+                    elif re[0] == prev and re[1] in (T.mk_idx(JP, prev), T.mk_idx(part_pairs, prev)):
+                        verdicts.append(("ok", b))
+                    else:
+                        raise AnalysisError(f"{where(fn, b)}: what the loop variables are set to before leaving the loop is not recognised")
+                if not breaks:
+                    ck.ok("C20.9", construct, w, "the loop is never left early: the part's last pair is recorded")
+                elif any(k == "bad" for k, _ in verdicts):
+                    b = next(b for k, b in verdicts if k == "bad")
+                    ck.violation("C20.9", "molecule_indels.find_conflict_place:breakage:differs", where(fn, b),
+                                 text + ": the loop is left at the first pair of the part that differs from the joined record and that pair "
+                                 "- one that was trimmed away when the parts were joined - is what is recorded after the loop; the call is "
+                                 "measured from a label that is not aligned in the joined record to alignedPairs[index + 1]",
+                                 found=f"break with ({iname}, {pname}) as they are, then [{iname}, {pname}] is stored",
+                                 required=f"[{iname} - 1, {T.show(JP)}[{iname} - 1]] at the first difference")
+                else:
+                    ck.ok("C20.9", construct, w, "at the first difference the loop variables step back to the last shared pair before the loop is left")
+            elif pair_t == T.mk_idx(JP, idx_t):
+                ck.ok("C20.9", construct, w, "a pair of the joined record with its own index")
+            else:
+                raise AnalysisError(f"{w}: what is recorded outside the loop is not recognised: [{T.show(idx_t)[:60]}, {T.show(pair_t)[:80]}]")
+    # ---- which part is walked: the one whose first pair is the joined record's first pair
+    ck.clause("C20.10", "the part the breakage search walks along the joined record is the part that starts it: chosen by comparing first "
+                        "pairs with the joined record (label numbers descend on the reverse strand: no order on them finds it)")
+    base = lp.iter.args[0]
+    part_name = base.value.id if isinstance(base, ast.Attribute) and isinstance(base.value, ast.Name) else None
+    if part_name is None:
+        raise AnalysisError(f"{where(fn, lp)}: the part walked is not held in a local")
+    binds = [n for n in ast.walk(outer[-1]) if isinstance(n, ast.Assign) and any(isinstance(t, ast.Name) and t.id == part_name for t in n.targets)]
+    if not binds:
+        raise AnalysisError(f"{where(fn, lp)}: where `{part_name}` is chosen was not found")
+    first_eq = {T.mk_idx(JP, C(0))}
+    for b in binds:
+        wb = where(fn, b)
+        tests, _ = enclosing_tests(b, outer[-1])
+        tests_ok = False
+        for iff, _in_body in tests:
+            for cmp_ in [x for x in ast.walk(iff.test) if isinstance(x, ast.Compare) and len(x.ops) == 1 and isinstance(x.ops[0], (ast.Eq, ast.NotEq))]:
+                l, r = norm_in(ck.ctx, fn, cmp_.left), norm_in(ck.ctx, fn, cmp_.comparators[0])
+                if T.mk_idx(JP, C(0)) in (l, r):
+                    tests_ok = True
+        exprs = [b.value]
+        for nm in {x.id for x in ast.walk(b.value) if isinstance(x, ast.Name)}:
+            exprs += [a.value for a in ast.walk(outer[-1]) if isinstance(a, ast.Assign) and a is not b and len(a.targets) == 1
+                      and isinstance(a.targets[0], ast.Name) and a.targets[0].id == nm]
+        for ex_ in exprs:
+            for cmp_ in [x for x in ast.walk(ex_) if isinstance(x, ast.Compare) and len(x.ops) == 1 and isinstance(x.ops[0], (ast.Eq, ast.NotEq))]:
+                l, r = norm_in(ck.ctx, fn, cmp_.left), norm_in(ck.ctx, fn, cmp_.comparators[0])
+                if T.mk_idx(JP, C(0)) in (l, r):
+                    tests_ok = True
+        if tests_ok:
+            ck.ok("C20.10", f"molecule_indels.find_conflict_place:starting-part", wb, "chosen by comparing first pairs with the joined record")
+            continue
+        if isinstance(b.value, ast.Call) and isinstance(b.value.func, ast.Name):
+            helper = p.find_function(fn.module.name, b.value.func.id)
+            if helper is not None and any(
+                    isinstance(x, ast.Compare) and len(x.ops) == 1 and isinstance(x.ops[0], (ast.Eq, ast.NotEq))
+                    and ast.unparse(x.left).endswith(".alignedPairs[0]") and ast.unparse(x.comparators[0]).endswith(".alignedPairs[0]")
+                    for x in ast.walk(helper.node)):
+                ck.ok("C20.10", f"molecule_indels.find_conflict_place:starting-part", wb, f"chosen by {helper.name}: first pairs compared")
+                continue
+        order = [x for x in ast.walk(b.value) if isinstance(x, ast.Call) and ast.unparse(x.func) in ("min", "max", "sorted")]
+        if order and any(isinstance(x, ast.Attribute) and x.attr in ("siteId", "position") for x in ast.walk(b.value)):
+            ck.violation("C20.10", "molecule_indels.find_conflict_place:starting-part", wb,
+                         "the part that starts the joined record is found by comparing first pairs with it: an order on label numbers "
+                         "picks the other part on the reverse strand (pairs ascend on the reference and descend on the query there), the "
+                         "flank recorded is then the first pair of the second part and the call spans the whole first part",
+                         found=ast.unparse(b.value)[:140], required=f"the part whose alignedPairs[0] == {T.show(JP)}[0]")
+            continue
+        raise AnalysisError(f"{wb}: how the part that starts the joined record is chosen is not recognised: {ast.unparse(b.value)[:100]}")
+
+
 def _coverage(ck, cluster, main, src):
     from ..norm import norm_in
     ctx = ck.ctx
@@ -298,6 +484,8 @@ def run(ck):
                                      "entries with equal keys overwrite each other", found=ast.unparse(node)[:100],
                                      required="one display per name")
     ck.floor("C20.8 assignments scanned in sv/", n_ch, 60)
+    if ck.wants("C20.9"):
+        _breakage_pair_is_joined_pair(ck)
     ck.clause("C20.6", "label look-ups of the finders keep no state: nothing at module level is written while calls are produced "
                        "(a cache shared by reference and query maps answers one with the other's position)")
     from ..report import RuleView
